@@ -83,6 +83,14 @@ TMPBASE = os.path.join(VERIF, '.cache', 'tmp')
 
 SRC_TYPES = ['TxElectricPoint', 'TxElectricDipole', 'TxMagneticPoint']
 REC_TYPES = ['RxElectricPoint', 'RxMagneticPoint']
+# 'extended' source set: every source class with a strength, both dipole
+# coordinate formats ('TxElectricDipole6' = [x0, x1, y0, y1, z0, z1])
+EXT_TYPES = ['TxElectricPoint', 'TxElectricDipole', 'TxMagneticPoint',
+             'TxElectricWire', 'TxMagneticDipole', 'TxElectricDipole6']
+# user-provided names (the file names of the file mode are built from them);
+# every "{source}_{frequency}" combination is unique
+SRC_NAMES = ['Tx_1', 'Tx_10', 'Tx.1']
+FREQ_NAMES = ['f_1.0', 'f_10', '1_f']
 
 
 # ---------------------------------------------------------------- wrapper
@@ -242,19 +250,38 @@ def spec_strategy(op, file_mode, salt, tqdm_first=False, sequential=False):
         'file': st.just(bool(file_mode)),
         'salt': st.just(int(salt)),
         'seed': gen.SEED,
-        'nsrc': _pick('nsrc', salt, [2, 3]),
-        'nfreq': _pick('nfreq', salt, [2, 3]),
+        # 1 x N and N x 1 surveys (a degenerate axis) included; 1 x 1 is
+        # mapped to 1 x 3 (see _fix_shape)
+        'nsrc': _pick('nsrc', salt, [2, 3, 1, 3]),
+        'nfreq': _pick('nfreq', salt, [2, 3, 3, 1]),
         'nrec': _pick('nrec', salt, [2, 1, 3]),
         'workers': workers,
         # False = tqdm absent (concurrent.futures path)
         'tqdm': st.sampled_from([True, False] if tqdm_first
                                 else [False, True]),
-        'bar': _pick('bar', salt, [False, True]),  # with tqdm: bar enabled
-        'gridding': _pick('gridding', salt, ['same', 'dict', 'same']),
-        'solver': _pick('solver', salt, ['plain', 'plain', 'plain',
-                                         'default']),
-        'case': _pick('case', salt, ['isotropic', 'isotropic', 'VTI']),
-        'mapping': _pick('mapping', salt, ['Conductivity', 'LgResistivity']),
+        # with tqdm: bar enabled (True, written to os.devnull) / no bar
+        # (tqdm_opts=False) / tqdm_opts={'disable': True}
+        'bar': _pick('bar', salt, [False, True, 'disable']),
+        # 'input': one provided grid (not the model grid) for all tasks;
+        # 'dict_shared': a dict in which several tasks share one TensorMesh
+        # object and the other tasks use the model grid itself
+        'gridding': _pick('gridding', salt, ['same', 'dict', 'same', 'input',
+                                             'dict_shared']),
+        'solver': _pick('solver', salt, ['plain', 'plain', 'default', 'bools',
+                                         'plain', 'codes', 'maxit']),
+        'case': _pick('case', salt, ['isotropic', 'isotropic', 'VTI', 'HTI',
+                                     'triaxial']),
+        'mapping': _pick('mapping', salt, ['Conductivity', 'LgResistivity',
+                                           'LnConductivity', 'Resistivity']),
+        # new input dimensions (defaults of old replay specs: see _build)
+        'srcset': _pick('srcset', salt, ['basic', 'extended']),
+        'mgrid': _pick('mgrid', salt, ['uniform', 'stretched']),
+        'mu_eps': _pick('mu_eps', salt, [False, True]),   # op=compute only
+        'names': _pick('names', salt, ['default', 'custom']),
+        'decoy': _pick('decoy', salt, [True, False]),     # file mode only
+        'history': _pick('history', salt, ['fresh', 'prefetch', 'fresh']),
+        'hist_k': st.integers(0, 8),
+        'extra': _pick('extra', salt, [False, True]),
         'tol_gradient': _pick('tolg', salt, [None, 1e-2]),
         'relative': _pick('relative', salt, [False, True]),
         # 'local': coordinates around the origin; 'utm_towed': the whole
@@ -265,43 +292,121 @@ def spec_strategy(op, file_mode, salt, tqdm_first=False, sequential=False):
                                        'random']),
         'rot': st.integers(0, 7),
         'perm': st.permutations(list(range(9))),
-    })
+    }).map(_fix_shape)
+
+
+def _fix_shape(spec):
+    if spec['nsrc'] == 1 and spec['nfreq'] == 1:
+        spec = {**spec, 'nfreq': 3}
+    return spec
 
 
 # ----------------------------------------------------------------- build
+def _widths(rng, n):
+    """Stretched cell widths: the inner n-2 cells span at least +-280 m
+    around the centre (receivers stay within +-250 m, i.e. strictly inside
+    the second layer of cells), the two outer cells are 100-160 m."""
+    inner = rng.uniform(0.7, 1.4, n-2)
+    inner = np.round(inner*rng.uniform(580.0, 700.0)/inner.sum(), 1)
+    inner[0] += max(0.0, 560.0 - inner.sum())
+    lo, hi = np.round(rng.uniform(100.0, 160.0, 2), 1)
+    h = np.r_[lo, inner, hi]
+    return h, float(-(lo + inner.sum()/2))
+
+
+def _ext_source(rng, t, xyz, az, el):
+    """Source of the 'extended' set around the centre xyz: all documented
+    coordinate formats, strength != 1, finite lengths."""
+    kind = EXT_TYPES[int(rng.integers(0, len(EXT_TYPES)))]
+    strength = float(np.round(rng.uniform(0.5, 3.0), 2) *
+                     (-1 if rng.integers(0, 4) == 0 else 1))
+    length = float(np.round(rng.uniform(20.0, 120.0), 1))
+    offs = np.round(rng.uniform(-60.0, 60.0, (3, 3)), 1)
+    return dict(kind=kind, strength=strength, length=length, offs=offs)
+
+
+def _source_args(var, t, xyz, az, el):
+    """-> (class name, coordinates, kwargs) of one source."""
+    x, y, z = (float(v) for v in xyz)
+    c5 = (x, y, z, float(round(az, 1)), float(round(el, 1)))
+    if var is None:
+        return (t, c5, {})
+    kind, kw = var['kind'], {'strength': var['strength']}
+    if kind in ('TxElectricDipole', 'TxMagneticDipole'):
+        return (kind, c5, {**kw, 'length': var['length']})
+    if kind == 'TxElectricDipole6':
+        a, e = np.deg2rad(c5[3]), np.deg2rad(c5[4])
+        d = var['length']/2*np.array([np.cos(a)*np.cos(e),
+                                      np.sin(a)*np.cos(e), np.sin(e)])
+        lo, hi = np.round(np.array(xyz) - d, 1), np.round(np.array(xyz) + d, 1)
+        return ('TxElectricDipole', tuple(
+            float(v) for v in (lo[0], hi[0], lo[1], hi[1], lo[2], hi[2])), kw)
+    if kind == 'TxElectricWire':
+        pts = np.array(xyz)[None, :] + var['offs']
+        return (kind, [[float(v) for v in p] for p in pts], kw)
+    return (kind, c5, kw)       # TxElectricPoint / TxMagneticPoint
+
+
+def _mksrc(emg3d, P, i):
+    t, coo, kw = P['src'][i]
+    if t == 'TxElectricWire':
+        coo = np.array(coo)
+    return getattr(emg3d, t)(coo, **kw)
+
+
 def _build(spec):
     """Expand the spec into everything needed to create simulations."""
     import emg3d
     rng = gen.rng_of(spec['seed'], 1000 + spec['salt'])
+    # generator of everything added later: the draws of `rng` (and with
+    # them old replay specs) stay what they were
+    rng2 = gen.rng_of(spec['seed'], 5000 + spec['salt'])
     nsrc, nfreq, nrec = spec['nsrc'], spec['nfreq'], spec['nrec']
+    op = spec['op']
 
     towed = spec.get('layout', 'local') == 'utm_towed'
     off = np.array([452000.0, 6551000.0, 0.0]) if towed else np.zeros(3)
     hx = np.ones(8)*100.0
-    grid = emg3d.TensorMesh([hx, hx, hx],
-                            origin=tuple(off + np.array([-400., -400, -400])))
+    if spec.get('mgrid', 'uniform') == 'stretched':
+        ny = int(rng2.choice([8, 12]))
+        hs = [_widths(rng2, n) for n in (8, ny, 8)]
+        grid = emg3d.TensorMesh(
+            [h for h, _ in hs],
+            origin=tuple(float(o + x0) for o, (_, x0) in zip(off, hs)))
+    else:
+        grid = emg3d.TensorMesh(
+            [hx, hx, hx], origin=tuple(off + np.array([-400., -400, -400])))
     shape = grid.shape_cells
     cond = 10.0**rng.uniform(-0.5, 0.5, size=shape)
     condz = cond*10.0**rng.uniform(0.0, 0.5, size=shape)
+    condy = cond*10.0**rng2.uniform(0.0, 0.5, size=shape)
     mp = spec['mapping']
+    case = spec['case']
     px = gen.map_forward(mp, cond)
-    pz = gen.map_forward(mp, condz) if spec['case'] == 'VTI' else None
-    model_args = dict(property_x=px, property_z=pz, mapping=mp)
+    py = gen.map_forward(mp, condy) if case in ('HTI', 'triaxial') else None
+    pz = gen.map_forward(mp, condz) if case in ('VTI', 'triaxial') else None
+    model_args = dict(property_x=px, property_y=py, property_z=pz, mapping=mp)
+    mu_eps = bool(spec.get('mu_eps', False)) and op == 'compute'
+    if mu_eps:      # the gradient is documented not to support these
+        model_args['mu_r'] = rng2.uniform(1.0, 2.0, size=shape)
+        model_args['epsilon_r'] = rng2.uniform(1.0, 50.0, size=shape)
 
     # sources: pairwise different positions / types
-    src = []
+    extended = spec.get('srcset', 'basic') == 'extended'
+    src, var0, first = [], None, None
     for i in range(nsrc):
         t = SRC_TYPES[int(rng.integers(0, 3))] if i else 'TxElectricPoint'
         xyz = rng.uniform(-200, 200, 3).round(1)
         az, el = rng.uniform(-180, 180), rng.uniform(-90, 90)
+        var = _ext_source(rng2, t, xyz, az, el) if extended else None
         if towed and i:
-            t = src[0][0]
-            xyz = np.array(src[0][1][:3]) - off + np.array(
-                [3.0*i, 7.0*i, 0.0])
-            az, el = src[0][1][3], src[0][1][4]
+            t, xyz0, az, el = first
+            xyz = xyz0 + np.array([3.0*i, 7.0*i, 0.0])
+            var = var0
         xyz = xyz + off
-        src.append((t, (float(xyz[0]), float(xyz[1]), float(xyz[2]),
-                        float(round(az, 1)), float(round(el, 1)))))
+        if i == 0:
+            first, var0 = (t, xyz - off, round(az, 1), round(el, 1)), var
+        src.append(_source_args(var, t, xyz, az, el))
     # receivers
     recs = []
     for i in range(nrec):
@@ -336,15 +441,45 @@ def _build(spec):
                 [np.ones(n)*w for n in ncell],
                 origin=tuple(float(-n/2*w + s + o)
                              for n, s, o in zip(ncell, shift, off)))
+    # the computational grid of every task
+    gridding = spec['gridding']
+    if gridding == 'dict':
+        taskgrid = dict(tgrids)
+    elif gridding == 'input':
+        taskgrid = {k: tgrids[(0, 0)] for k in tgrids}
+    elif gridding == 'dict_shared':
+        # shared along one axis of the survey: the first source (frequency)
+        # uses the model grid itself, every other source (frequency) one
+        # TensorMesh object for all its frequencies (sources)
+        by_src = nfreq == 1 or (nsrc > 1 and bool(rng2.integers(0, 2)))
+        taskgrid = {}
+        for (i, j) in tgrids:
+            a = i if by_src else j
+            taskgrid[(i, j)] = grid if a == 0 else tgrids[
+                (a, 0) if by_src else (0, a)]
+    else:
+        taskgrid = {k: grid for k in tgrids}
 
     if spec['solver'] == 'plain':
         sopts = {'plain': True, 'tol': 1e-3}
+    elif spec['solver'] == 'bools':
+        # the documented defaults given explicitly (booleans travel through
+        # the h5 files in file mode)
+        sopts = {'tol': 1e-3, 'sslsolver': True, 'semicoarsening': True,
+                 'linerelaxation': True}
+    elif spec['solver'] == 'codes':
+        sopts = {'tol': 1e-3, 'sslsolver': False, 'semicoarsening': 1213,
+                 'linerelaxation': 5, 'cycle': 'W', 'nu_pre': 1, 'nu_post': 3}
+    elif spec['solver'] == 'maxit':
+        # stops at maxit (exit=1): the always_return path
+        sopts = {'plain': True, 'tol': 1e-6, 'maxit': 2}
     else:
         sopts = {'tol': 1e-3}
-    nvec = 2 if spec['case'] == 'VTI' else 1
+    nvec = {'isotropic': 1, 'VTI': 2, 'HTI': 2, 'triaxial': 3}[case]
     vector = rng.standard_normal((nvec, *shape))
     if nvec == 1 and rng.integers(0, 2):
         vector = vector[0]
+    vector2 = rng2.standard_normal((nvec, *shape))
     # observed = reference synthetic * factor, NaN holes (>= 1 finite datum
     # per source-frequency pair so that tasks stay pairwise different)
     fac = 1 + 0.3*(rng.standard_normal((nsrc, nrec, nfreq)) +
@@ -354,9 +489,17 @@ def _build(spec):
         for j in range(nfreq):
             if hole[i, :, j].all():
                 hole[i, int(rng.integers(0, nrec)), j] = False
+    dvec = (rng2.standard_normal((nsrc, nrec, nfreq)) +
+            1j*rng2.standard_normal((nsrc, nrec, nfreq)))
+    if spec.get('names', 'default') == 'custom':
+        snames = SRC_NAMES[:nsrc]
+        fnames = FREQ_NAMES[:nfreq]
+    else:
+        snames = fnames = None
     return dict(grid=grid, model_args=model_args, src=src, recs=recs,
-                freqs=freqs, tgrids=tgrids, sopts=sopts, vector=vector,
-                fac=fac, hole=hole)
+                freqs=freqs, tgrids=tgrids, taskgrid=taskgrid, sopts=sopts,
+                vector=vector, vector2=vector2, dvec=dvec, fac=fac, hole=hole,
+                snames=snames, fnames=fnames, mu_eps=mu_eps)
 
 
 def _survey(P, isrc=None, ifreq=None, observed=None):
@@ -364,10 +507,13 @@ def _survey(P, isrc=None, ifreq=None, observed=None):
     import emg3d
     si = list(range(len(P['src']))) if isrc is None else [isrc]
     fi = list(range(len(P['freqs']))) if ifreq is None else [ifreq]
-    sources = [getattr(emg3d, P['src'][i][0])(P['src'][i][1]) for i in si]
+    sources = [_mksrc(emg3d, P, i) for i in si]
     receivers = [getattr(emg3d, t)(c, relative=rel)
                  for t, c, rel in P['recs']]
     freqs = [P['freqs'][j] for j in fi]
+    if P.get('snames'):     # user-provided names (documented: dict as is)
+        sources = {P['snames'][i]: s for i, s in zip(si, sources)}
+        freqs = {P['fnames'][j]: f for j, f in zip(fi, freqs)}
     data = None
     if observed is not None:
         data = {'observed': observed[np.ix_(si, range(len(receivers)),
@@ -382,17 +528,21 @@ def _simulation(P, spec, survey, workers, isrc=None, ifreq=None, **kw):
     sopts = dict(P['sopts'])
     if spec['tol_gradient'] is not None:
         sopts['tol_gradient'] = spec['tol_gradient']
-    if spec['gridding'] == 'dict':
+    gridding = spec['gridding']
+    if gridding in ('dict', 'dict_shared'):
+        gridding = 'dict'
         snames = list(survey.sources.keys())
         fnames = list(survey.frequencies.keys())
         si = list(range(len(snames))) if isrc is None else [isrc]
         fi = list(range(len(fnames))) if ifreq is None else [ifreq]
-        gopts = {sn: {fn: P['tgrids'][(i, j)]
+        gopts = {sn: {fn: P['taskgrid'][(i, j)]
                       for fn, j in zip(fnames, fi)}
                  for sn, i in zip(snames, si)}
         kw['gridding_opts'] = gopts
+    elif gridding == 'input':
+        kw['gridding_opts'] = P['taskgrid'][(0, 0)]
     return emg3d.Simulation(
-        survey, model, max_workers=workers, gridding=spec['gridding'],
+        survey, model, max_workers=workers, gridding=gridding,
         receiver_interpolation='linear', solver_opts=sopts, verb=-1, **kw)
 
 
@@ -475,15 +625,74 @@ def _path(spec):
     return f"{'file' if spec['file'] else 'mem'}:{ex}"
 
 
-def _collect(sim, P, spec, names):
+INFO_KEYS = ('exit', 'exit_message', 'abs_error', 'rel_error', 'ref_error',
+             'tol', 'it_mg', 'it_ssl', 'error_at_cycle')
+
+
+def _info_sig(info):
+    """Deterministic part of a solver-info dict as one float array (timings
+    and the log are excluded; the exit message enters through its hash)."""
+    if info is None:
+        return np.array([np.nan])
+    out = []
+    for k in INFO_KEYS:
+        if k not in info:
+            continue
+        v = info[k]
+        if isinstance(v, (str, bytes)):
+            v = int.from_bytes(hashlib.sha1(str(v).encode()).digest()[:6],
+                               'big')
+        out.append(np.asarray(v, dtype=float).ravel())
+    return np.concatenate(out) if out else np.array([np.nan])
+
+
+def _grid_sig(grid):
+    return np.concatenate([np.asarray(grid.origin, float).ravel()] +
+                          [np.asarray(h, float).ravel() for h in grid.h])
+
+
+def _slots_filled(sim, names):
+    """Source-frequency pairs whose stored field slot is empty, looked at
+    without the accessor get_efield (which would silently recompute an
+    empty slot).  None if the private storage is not there any more."""
+    store = getattr(sim, '_dict_efield', None)
+    if not isinstance(store, dict):
+        return None
+    try:
+        return [k for k, (sn, fn) in names.items() if store[sn][fn] is None]
+    except (KeyError, TypeError):
+        return None
+
+
+def _collect(sim, P, spec, names, _mp=None):
     """Read everything observable from a simulation after its run."""
-    out = {'efield': {}, 'syn': {}, 'bfield': {}, 'jvec': {}}
+    out = {'efield': {}, 'syn': {}, 'bfield': {}, 'jvec': {}, 'info': {},
+           'binfo': {}, 'meta': {}, 'hfield': {}}
+    out['empty'] = _slots_filled(sim, names)
+    n0 = _mp.process_map.count if _mp is not None else 0
     syn = np.array(sim.data.synthetic.data)
     out['synthetic'] = syn
     for (i, j), (sn, fn) in names.items():
-        out['efield'][(i, j)] = np.array(sim.get_efield(sn, fn).field)
+        ef = sim.get_efield(sn, fn)
+        out['efield'][(i, j)] = np.array(ef.field)
         out['syn'][(i, j)] = syn[i, :, j]
+        out['info'][(i, j)] = _info_sig(sim.get_efield_info(sn, fn))
+        fr = ef.frequency
+        out['meta'][(i, j)] = np.r_[np.nan if fr is None else float(fr),
+                                    _grid_sig(ef.grid)]
+        out['hfield'][(i, j)] = np.array(sim.get_hfield(sn, fn).field)
+    # number of process_map calls the accessors needed (0 if every slot is
+    # filled)
+    out['recomputed'] = (_mp.process_map.count - n0) if _mp is not None else 0
     return out
+
+
+def _collect_b(sim, names, out):
+    """Back-propagated fields and their solver info (private storage: there
+    is no public accessor)."""
+    for k, (sn, fn) in names.items():
+        out['bfield'][k] = np.array(sim._dict_get('bfield', sn, fn).field)
+        out['binfo'][k] = _info_sig(sim._dict_get('bfield_info', sn, fn))
 
 
 def case_parallel(spec, rec):
@@ -512,6 +721,10 @@ def _case(spec, rec, emg3d, _mp, tmpd):
     n = len(tasks)
     path = _path(spec)
     seq = dict(tqdm_opts=False)
+    history = spec.get('history', 'fresh')
+    extra = bool(spec.get('extra', False)) and op in ('gradient', 'jvec')
+    decoy = bool(spec.get('decoy', False)) and bool(spec['file'])
+    kpre = tasks[spec.get('hist_k', 0) % n] if history == 'prefetch' else None
 
     if _mp.solve is _delayed_solve:
         raise HarnessError("C11: patched solve left over from another case")
@@ -531,7 +744,7 @@ def _case(spec, rec, emg3d, _mp, tmpd):
     # direct solve_source, and a sequential one-source-one-frequency
     # simulation (forward now; back-propagation / jvec below, once the
     # observed data - derived from the reference responses - exist)
-    ref_e, ref_syn, single = {}, {}, {}
+    ref_e, ref_syn, single, ref_i, ref_m = {}, {}, {}, {}, {}
     synref = np.zeros((nsrc, nrec, nfreq), dtype=complex)
     # The references are computed in the REVERSE of the submission order: a
     # result that depends on what the process computed just before (state
@@ -543,11 +756,10 @@ def _case(spec, rec, emg3d, _mp, tmpd):
         s1.compute()
         sn, fn = list(sv.sources)[0], list(sv.frequencies)[0]
         e1 = np.array(s1.get_efield(sn, fn).field)
-        g = P['tgrids'][(i, j)] if spec['gridding'] == 'dict' else P['grid']
+        g = P['taskgrid'][(i, j)]
         model = emg3d.Model(P['grid'], **P['model_args'])
         ed = emg3d.solve_source(
-            model=model.interpolate_to_grid(g),
-            source=getattr(emg3d, P['src'][i][0])(P['src'][i][1]),
+            model=model.interpolate_to_grid(g), source=_mksrc(emg3d, P, i),
             frequency=P['freqs'][j], **P['sopts'])
         if not _same(e1, ed.field):
             raise Violation(
@@ -556,6 +768,10 @@ def _case(spec, rec, emg3d, _mp, tmpd):
                 f"from a direct solve_source: {_maxdiff(e1, ed.field)}")
         ref_e[(i, j)] = e1
         ref_syn[(i, j)] = np.array(s1.data.synthetic.data[0, :, 0])
+        ref_i[(i, j)] = _info_sig(s1.get_efield_info(sn, fn))
+        # what the field of this task is documented to carry: its frequency
+        # and the grid it was computed on
+        ref_m[(i, j)] = np.r_[float(P['freqs'][j]), _grid_sig(g)]
         if early is not None and not _same(early[(i, j)], e1):
             raise Violation(
                 "efield_slot:differs:vs_task:mem:seq_clean_process",
@@ -573,11 +789,14 @@ def _case(spec, rec, emg3d, _mp, tmpd):
                 raise Inconclusive("tasks not pairwise different")
     if not np.all(np.isfinite(synref)):
         raise Inconclusive("non-finite reference responses")
+    # the solver info of two tasks can only be told apart if it differs
+    info_distinct = all(not _same(ref_i[tasks[a]], ref_i[tasks[b]])
+                        for a in range(n) for b in range(a+1, n))
 
     observed = synref*P['fac']
     observed[P['hole']] = np.nan + 1j*np.nan
 
-    ref_b, ref_j, ref_g = {}, {}, {}
+    ref_b, ref_j, ref_g, ref_bi = {}, {}, {}, {}
     if op in ('gradient', 'jvec'):
         for (i, j) in tasks:
             s1, sn, fn = single[(i, j)]
@@ -587,37 +806,71 @@ def _case(spec, rec, emg3d, _mp, tmpd):
                 ref_g[(i, j)] = np.array(s1.gradient)
                 ref_b[(i, j)] = np.array(
                     s1._dict_get('bfield', sn, fn).field)
+                ref_bi[(i, j)] = _info_sig(
+                    s1._dict_get('bfield_info', sn, fn))
             else:
                 ref_j[(i, j)] = np.array(s1.jvec(P['vector'])[0, :, 0])
     del single
 
     # ---------------- (i) sequential in-memory simulation ----------------
+    full = _survey(P, observed=observed)
+    snames, fnames = list(full.sources), list(full.frequencies)
+    names = {(i, j): (snames[i], fnames[j]) for (i, j) in tasks}
+
     def run_ops(sim, hook=None):
         """The call sequence whose results must not depend on the setting."""
         res = {}
+        if kpre is not None:
+            # one field requested before the survey is computed (documented
+            # accessor; computes this source-frequency pair only), then the
+            # survey: one task starts from its solution, the others from zero
+            sn, fn = names[kpre]
+            res['pre_efield'] = np.array(sim.get_efield(sn, fn).field)
+            if hook:
+                hook('prefetch')
+            res['pre_synthetic'] = np.array(sim.data.synthetic.data)
+            res['pre_empty'] = _slots_filled(sim, names)
         sim.compute()
         if hook:
             hook('forward')
         res['misfit'] = np.array(sim.misfit)
+        res['obs'] = None
         if op == 'gradient':
             res['gradient'] = np.array(sim.gradient)
             if hook:
                 hook('back')
+            if extra:
+                # J^H w for another data vector; documented to return the
+                # gradient for that vector - it must not depend on the
+                # setting, and gradient / misfit / residual of the
+                # simulation are what they were
+                res['obs'] = _collect(sim, P, spec, names, _mp)
+                _collect_b(sim, names, res['obs'])
+                res['residual'] = np.array(sim.data.residual.data)
+                res['jtvec'] = np.array(sim.jtvec(P['dvec']))
+                if hook:
+                    hook('jtvec')
+                res['gradient_after'] = np.array(sim.gradient)
+                res['misfit_after'] = np.array(sim.misfit)
+                res['residual_after'] = np.array(sim.data.residual.data)
         elif op == 'jvec':
             res['jvec'] = np.array(sim.jvec(P['vector']))
             if hook:
                 hook('jvec')
+            if extra:
+                # a second J v with another vector
+                res['jvec2'] = np.array(sim.jvec(P['vector2']))
+                if hook:
+                    hook('jvec2')
+        if res['obs'] is None:
+            res['obs'] = _collect(sim, P, spec, names, _mp)
+            if op == 'gradient':
+                _collect_b(sim, names, res['obs'])
         return res
 
-    full = _survey(P, observed=observed)
-    snames, fnames = list(full.sources), list(full.frequencies)
-    names = {(i, j): (snames[i], fnames[j]) for (i, j) in tasks}
     sim0 = _simulation(P, spec, full, 1, **seq)
     res0 = run_ops(sim0)
-    obs0 = _collect(sim0, P, spec, names)
-    if op == 'gradient':
-        obs0['bfield'] = {k: np.array(sim0._dict_get('bfield', *names[k]
-                                                     ).field) for k in tasks}
+    obs0 = res0['obs']
 
     # ---------------- simulation under test ------------------------------
     ranks = _ranks(spec['order'], n, spec['rot'], spec['perm'])
@@ -626,11 +879,34 @@ def _case(spec, rec, emg3d, _mp, tmpd):
     fh = None
     if spec['file']:
         kw['file_dir'] = os.path.join(tmpd, 'files')
-    if spec['tqdm'] and spec['bar']:
+    if spec['tqdm'] and spec['bar'] == 'disable':
+        kw['tqdm_opts'] = {'disable': True}
+    elif spec['tqdm'] and spec['bar']:
         fh = open(os.devnull, 'w')
         kw['tqdm_opts'] = {'file': fh}
     else:
         kw['tqdm_opts'] = False
+    if decoy:
+        # file_dir still holds the files of an earlier simulation of the same
+        # survey (same names) with another model ("files will remain there")
+        margs = dict(P['model_args'])
+        margs['property_x'] = gen.map_forward(spec['mapping'], 3.0*gen.
+                                              map_backward(spec['mapping'],
+                                                           margs['property_x']
+                                                           ))
+        dsim = emg3d.Simulation(
+            _survey(P, observed=observed),
+            emg3d.Model(P['grid'], **margs), max_workers=1,
+            file_dir=kw['file_dir'], tqdm_opts=False, verb=-1,
+            receiver_interpolation='linear',
+            solver_opts={'plain': True, 'maxit': 1, 'tol': 1e-3},
+            **_gridding_kw(P, spec, full))
+        dsim.compute()
+        if op == 'gradient':
+            dsim.gradient
+        elif op == 'jvec':
+            dsim.jvec(P['vector2'])
+        del dsim
     log = os.path.join(tmpd, 'order.log')
     open(log, 'w').close()
     phases = {}
@@ -640,7 +916,7 @@ def _case(spec, rec, emg3d, _mp, tmpd):
         phases[phase] = lines
         _STATE['phase'] += 1
         _STATE['ranks'] = {}
-        if not lines:
+        if not lines and phase != 'repeat':
             raise HarnessError(
                 f"C11: no task of phase '{phase}' went through the delay "
                 "wrapper (workers not forked, or the simulation does not "
@@ -657,13 +933,8 @@ def _case(spec, rec, emg3d, _mp, tmpd):
                           spec['workers'], **kw)
         _instrument(sim, want)
         res = run_ops(sim, hook)
-        obs = _collect(sim, P, spec, names)
-        if op == 'gradient':
-            obs['bfield'] = {k: np.array(sim._dict_get('bfield', *names[k]
-                                                       ).field)
-                             for k in tasks}
-        converged = all(
-            int(sim.get_efield_info(*names[k])['exit']) == 0 for k in tasks)
+        obs = res['obs']
+        converged = all(int(round(obs['info'][k][0])) == 0 for k in tasks)
         if op == 'compute':
             # repeating the computation changes nothing (a converged field
             # is its own fixed point; a run that stopped at maxit would
@@ -688,6 +959,9 @@ def _case(spec, rec, emg3d, _mp, tmpd):
         order = [ln[1].split('|', 1)[1] if '|' in ln[1] else ln[1]
                  for ln in lines]
         pids = {ln[0] for ln in lines}
+        if ph == 'prefetch':
+            rec.cls(f"prefetch:tasks={len(lines)}")
+            continue
         complete = sorted(order) == sorted(subm)
         reordered = complete and order != subm
         rec.cls(f"{ph}:{'reordered' if reordered else 'in_order'}"
@@ -704,8 +978,20 @@ def _case(spec, rec, emg3d, _mp, tmpd):
             f"solver={spec['solver']}", f"order={spec['order']}",
             f"workers={'1' if w == 1 else '2-4' if w < 5 else '5-8' if w < 9 else '9-16'}",
             f"workers{'<' if w < n else '>='}tasks", f"tasks={nsrc}x{nfreq}",
-            f"bar={'on' if spec['tqdm'] and spec['bar'] else 'off'}",
-            f"case={spec['case']}", f"relative_rx={spec['relative']}")
+            f"bar={'off' if not (spec['tqdm'] and spec['bar']) else 'disable' if spec['bar'] == 'disable' else 'on'}",
+            f"case={spec['case']}", f"relative_rx={spec['relative']}",
+            f"mapping={spec['mapping']}",
+            f"srcset={spec.get('srcset', 'basic')}",
+            f"mgrid={spec.get('mgrid', 'uniform')}"
+            f"{'' if P['grid'].shape_cells[1] == 8 else ':noncubic'}",
+            f"mu_eps={P['mu_eps']}", f"names={spec.get('names', 'default')}",
+            f"history={history}", f"extra={extra}",
+            f"decoy_files={decoy}" if spec['file'] else "decoy_files=n/a",
+            f"converged={converged}",
+            f"info_pairwise_distinct={info_distinct}")
+    rec.cls(*{f"src_type={t}{'' if kw_.get('strength', 1.0) == 1.0 else ':strength'}"
+              f"{':6coords' if t == 'TxElectricDipole' and len(c) == 6 else ''}"
+              for t, c, kw_ in P['src']})
     if ntkey is not None:
         rec.nt([op, path, spec['gridding'], spec['solver'], w, nsrc, nfreq,
                 ntkey])
@@ -716,8 +1002,62 @@ def _case(spec, rec, emg3d, _mp, tmpd):
                        for ph, lines in phases.items()}})
 
     # ---------------- oracle ----------------------------------------------
+    # every slot is filled when compute() returns: looked at before any
+    # accessor could recompute it
+    for nm, o in (('mem:seq_reference', obs0), (path, obs)):
+        if o['empty']:
+            raise Violation(
+                f"efield_slot:empty:{nm}",
+                f"after compute() the field slots of tasks {o['empty']} are "
+                "empty (get_efield would recompute them silently)",
+                {'slots': [list(k) for k in o['empty']]})
+    if obs['empty'] is None:
+        rec.cls('slot_storage:not_inspectable')
+    if obs['recomputed'] != obs0['recomputed']:
+        raise Violation(
+            f"efield_slot:recomputed_by_accessor:{path}",
+            "reading the results (get_efield / get_efield_info / get_hfield)"
+            f" after the run started {obs['recomputed']} process_map call(s),"
+            f" the sequential simulation {obs0['recomputed']}")
+    if kpre is not None:
+        # the field requested first is the result of its own task; nothing
+        # else was computed or stored
+        for nm, r in (('mem:seq_reference', res0), (path, res)):
+            if not _same(r['pre_efield'], ref_e[kpre]):
+                owner = [k for k in tasks if k != kpre and
+                         _same(r['pre_efield'], ref_e[k])]
+                raise Violation(
+                    f"efield_slot:{'misplaced' if owner else 'differs'}:"
+                    f"vs_task:prefetch:{nm}",
+                    f"get_efield for task {kpre} before compute() is not "
+                    "bit-identical to the task reference: "
+                    f"{_maxdiff(r['pre_efield'], ref_e[kpre])}" +
+                    (f"; it is the field of task {owner[0]}" if owner else ""))
+            ps = r['pre_synthetic']
+            rest = np.ones(ps.shape, bool)
+            rest[kpre[0], :, kpre[1]] = False
+            if ps.shape != synref.shape or not _same(
+                    ps[kpre[0], :, kpre[1]], ref_syn[kpre]) or np.any(
+                    np.isfinite(ps.real[rest]) & np.isfinite(ps.imag[rest])):
+                raise Violation(
+                    f"synthetic:prefetch:{nm}",
+                    f"after get_efield for task {kpre} only, data.synthetic "
+                    "is not (reference responses in that slot, no data "
+                    "elsewhere): slot " +
+                    _maxdiff(ps[kpre[0], :, kpre[1]], ref_syn[kpre]) +
+                    f"; {int(np.isfinite(ps[rest]).sum())} finite entries in "
+                    "other slots")
+            if r['pre_empty'] is not None and sorted(r['pre_empty']) != \
+                    sorted(k for k in tasks if k != kpre):
+                raise Violation(
+                    f"efield_slot:prefetch_filled_wrong_slots:{nm}",
+                    f"after get_efield for task {kpre} only, the empty field "
+                    f"slots are {r['pre_empty']}")
+    # a slot that started from its own solution equals the task reference
+    # only if that solution was converged
+    fresh = [k for k in tasks if k != kpre or converged]
     # sequential in-memory simulation against the per-task references
-    for k in tasks:
+    for k in fresh:
         _slot_check('efield', 'mem:seq_reference', obs0['efield'], ref_e, k,
                     'task reference')
         _slot_check('synthetic', 'mem:seq_reference', obs0['syn'], ref_syn,
@@ -731,19 +1071,19 @@ def _case(spec, rec, emg3d, _mp, tmpd):
                         ref_j, k, 'task reference')
     # simulation under test: per-task references first (root cause), then
     # the sequential simulation
-    for k in tasks:
+    for k in fresh:
         _slot_check('efield', path, obs['efield'], ref_e, k,
                     'task reference')
-    for k in tasks:
+    for k in fresh:
         _slot_check('synthetic', path, obs['syn'], ref_syn, k,
                     'task reference')
     if op == 'gradient':
-        for k in tasks:
+        for k in fresh:
             _slot_check('bfield', path, obs['bfield'], ref_b, k,
                         'task reference')
     if op == 'jvec':
         got = {t: res['jvec'][t[0], :, t[1]] for t in tasks}
-        for k in tasks:
+        for k in fresh:
             _slot_check('jvec', path, got, ref_j, k, 'task reference')
     for k in tasks:
         _slot_check('efield', path, obs['efield'], obs0['efield'], k,
@@ -753,7 +1093,7 @@ def _case(spec, rec, emg3d, _mp, tmpd):
             raise Violation(f"{what}:vs_sequential:{path}",
                             f"data.{what} differs from the sequential run: "
                             f"{_maxdiff(obs[what], obs0[what])}")
-    for what in ('misfit', 'gradient', 'jvec'):
+    for what in ('misfit', 'gradient', 'jvec', 'jtvec', 'jvec2'):
         if what in res0 and not _same(res[what], res0[what]):
             raise Violation(f"{what}:vs_sequential:{path}",
                             f"{what} is not bit-identical to the sequential "
@@ -763,23 +1103,62 @@ def _case(spec, rec, emg3d, _mp, tmpd):
             _slot_check('bfield', path, obs['bfield'], obs0['bfield'], k,
                         'sequential run')
         # the survey gradient is the sum of the task gradients (rounding)
-        gsum = sum(ref_g[k] for k in tasks)
-        gabs = sum(np.abs(ref_g[k]) for k in tasks)
-        if res['gradient'].shape != gsum.shape or np.any(
-                np.abs(res['gradient'] - gsum) > 1e-9*(gabs + gabs.max())):
-            raise Violation(f"gradient:vs_task_sum:{path}",
-                            "gradient differs from the sum of the single-"
-                            "task gradients beyond rounding: "
-                            f"{_maxdiff(res['gradient'], gsum)}")
+        if kpre is None or converged:
+            gsum = sum(ref_g[k] for k in tasks)
+            gabs = sum(np.abs(ref_g[k]) for k in tasks)
+            if res['gradient'].shape != gsum.shape or np.any(
+                    np.abs(res['gradient'] - gsum) >
+                    1e-9*(gabs + gabs.max())):
+                raise Violation(f"gradient:vs_task_sum:{path}",
+                                "gradient differs from the sum of the single-"
+                                "task gradients beyond rounding: "
+                                f"{_maxdiff(res['gradient'], gsum)}")
+    # solver information, field metadata and magnetic fields are stored /
+    # derived by position like the fields: per slot against the sequential
+    # run and (info, metadata) the task reference
+    for k in tasks:
+        for what, ref in (('info', ref_i), ('meta', ref_m)):
+            if what == 'info' and k not in fresh:
+                continue
+            if what == 'info' and kpre == k:
+                continue   # second solve of that slot: other iteration count
+            _slot_check(f'efield_{what}', 'mem:seq_reference', obs0[what],
+                        ref, k, 'task reference')
+            _slot_check(f'efield_{what}', path, obs[what], ref, k,
+                        'task reference')
+        for what in ('info', 'meta', 'hfield'):
+            _slot_check(f'efield_{what}' if what != 'hfield' else what, path,
+                        obs[what], obs0[what], k, 'sequential run')
+        if op == 'gradient':
+            if kpre is None or converged:
+                _slot_check('bfield_info', 'mem:seq_reference', obs0['binfo'],
+                            ref_bi, k, 'task reference')
+                _slot_check('bfield_info', path, obs['binfo'], ref_bi, k,
+                            'task reference')
+            _slot_check('bfield_info', path, obs['binfo'], obs0['binfo'], k,
+                        'sequential run')
+    if extra and op == 'gradient':
+        for nm, r in (('mem:seq_reference', res0), (path, res)):
+            for what, a, b in (
+                    ('gradient', r['gradient_after'], r['gradient']),
+                    ('misfit', r['misfit_after'], r['misfit']),
+                    ('residual', r['residual_after'], r['residual'])):
+                if not _same(a, b):
+                    raise Violation(
+                        f"jtvec_changed:{what}:{nm}",
+                        f"jtvec(w) changed the {what} of the simulation: "
+                        f"{_maxdiff(a, b)}")
     # misfit against the checker's own sum over the reference slots
-    std = np.sqrt(1e-16**2 + (0.05*np.abs(observed))**2)
-    r = synref - observed
-    fin = np.isfinite(observed)
-    mref = 0.5*float(np.sum((np.abs(r[fin])/std[fin])**2))
-    if not abs(float(res['misfit']) - mref) <= 1e-9*mref:
-        raise Violation(f"misfit:vs_task_reference:{path}",
-                        f"misfit {float(res['misfit'])!r} differs from the "
-                        f"weighted sum over the reference slots {mref!r}")
+    if kpre is None or converged:
+        std = np.sqrt(1e-16**2 + (0.05*np.abs(observed))**2)
+        r = synref - observed
+        fin = np.isfinite(observed)
+        mref = 0.5*float(np.sum((np.abs(r[fin])/std[fin])**2))
+        if not abs(float(res['misfit']) - mref) <= 1e-9*mref:
+            raise Violation(f"misfit:vs_task_reference:{path}",
+                            f"misfit {float(res['misfit'])!r} differs from "
+                            "the weighted sum over the reference slots "
+                            f"{mref!r}")
     if op == 'compute' and not converged:
         rec.cls('repeat:skipped_not_converged')
     if op == 'compute' and converged:
@@ -798,13 +1177,31 @@ def _case(spec, rec, emg3d, _mp, tmpd):
                             "second compute() changed the misfit")
 
 
+def _gridding_kw(P, spec, survey):
+    """gridding / gridding_opts of the spec for a full-survey simulation."""
+    gridding = spec['gridding']
+    if gridding in ('dict', 'dict_shared'):
+        sn, fn = list(survey.sources), list(survey.frequencies)
+        return {'gridding': 'dict', 'gridding_opts': {
+            s: {f: P['taskgrid'][(i, j)] for j, f in enumerate(fn)}
+            for i, s in enumerate(sn)}}
+    if gridding == 'input':
+        return {'gridding': 'input', 'gridding_opts': P['taskgrid'][(0, 0)]}
+    return {'gridding': gridding}
+
+
 # ------------------------------------------------------- bounded reduction
 _REDUCED = set()     # signatures already reduced in this process
 
 
 def _reductions(spec):
-    return [('nsrc', 2), ('nfreq', 2), ('solver', 'plain'),
-            ('gridding', 'same'), ('workers', min(spec['workers'], 3))]
+    red = [('nsrc', 2), ('nfreq', 2), ('solver', 'plain'),
+           ('gridding', 'same'), ('workers', min(spec['workers'], 3))]
+    # new dimensions: only where the spec has them switched on
+    red += [(k, v) for k, v in (('history', 'fresh'), ('decoy', False),
+                                ('names', 'default'), ('srcset', 'basic'))
+            if spec.get(k, v) != v]
+    return red
 
 
 _OUTCOME = {}        # spec -> Violation observed for it in this process
@@ -837,7 +1234,7 @@ def explore_case(spec, rec):
             raise
         _REDUCED.add(v.signature)
         for key, val in _reductions(spec):
-            if cur[key] == val:
+            if cur.get(key, val) == val:
                 continue
             cand = {**cur, key: val}
             try:
